@@ -5,6 +5,9 @@ CONSTANTS
   UrgentClose = TRUE
   JobsLast = TRUE
   NoPush = {FALSE, TRUE}
+  AttrPairs <- AP_All
+  Faults <- FaultCalls
+  MaxFaults = 1
 
-INVARIANTS TypeOK C04 C05 C06 C07_Count C08 C26_Safe C26_Exact 
+INVARIANTS TypeOK C04 C05 C06 C07_Count C08 C26_Safe C26_Exact
 CHECK_DEADLOCK FALSE
